@@ -53,7 +53,7 @@ def write_vasprun(path, matrix, symbols, frames, potim=2.0, tebeg=600.0):
         f.write('\n'.join(L))
 
 
-def write_lammps(data_path, xyz_path, lengths, symbols, cart_frames, numeric_names=False):
+def write_lammps(data_path, xyz_path, lengths, symbols, cart_frames, numeric_names=False, dual_format=False):
     """Orthogonal box LAMMPS data file (atom_style atomic) + xyz dump (Cartesian)."""
     symbols = list(symbols)
     order = list(dict.fromkeys(symbols))
@@ -68,6 +68,15 @@ def write_lammps(data_path, xyz_path, lengths, symbols, cart_frames, numeric_nam
         f.write('\n'.join(L))
     with open(xyz_path, 'w') as f:
         for t, fr in enumerate(cart_frames):
+            if dual_format and numeric_names:
+                # a dump that is valid both as XYZ (name x y z ...) and as Tinker TXYZ with a box line
+                # (index name x y z type): the two readings take different columns as coordinates
+                f.write(f'{len(symbols)}\n{lengths[0]:.6f} {lengths[1]:.6f} {lengths[2]:.6f} 90.0 90.0 90.0\n')
+                for s, xyz in zip(symbols, fr):
+                    nm = str(order.index(s) + 1)
+                    w = 0.5 * (xyz[0] + xyz[2]) % lengths[2]
+                    f.write(f'{nm} {xyz[0]:.6f} {xyz[1]:.6f} {xyz[2]:.6f} {w:.6f} {nm}\n')
+                continue
             f.write(f'{len(symbols)}\nAtoms. Timestep: {t}\n')
             for s, xyz in zip(symbols, fr):
                 nm = str(order.index(s) + 1) if numeric_names else s
